@@ -28,7 +28,7 @@ fn adj(a: Cell, b: Cell) -> bool {
     dx >= -1 && dx <= 1 && dy >= -1 && dy <= 1
 }
 
-//@ harness: o10_2_span_merge_step props=C10 tier=quick obl=O10.2 timeout=800 mem=14
+//@ harness: o10_2_span_merge_step props=C10,C03,C05 tier=quick obl=O10.2 timeout=800 mem=14
 //@ desc: spans of 1..2 symbolic cells each (first character a letter, second a drawing character) in an 8x8 window: Span::can_merge(a,b) <=> some cell of a is 8-adjacent to some cell of b; Span::merge returns Some exactly then and the result is a's cells followed by b's cells (nothing lost, nothing invented); symmetric
 //@ encodes: Span::can_merge, Span::merge, Span::merge_no_check, Span::is_adjacent, Cell::is_adjacent
 #[kani::proof]
